@@ -217,7 +217,15 @@ func VerifyComplaint(
 		return NewError(err, "verify complaint signature")
 	}
 
-	secretShare, err := DecryptSecretShare(encSecretShare, keySym)
+	// The share was encrypted under the compressed encoding of the key sym. A complaint may carry the
+	// same point in another accepted encoding (uncompressed or hybrid form); decrypting with those raw
+	// bytes would turn a correct share into garbage and blame an honest dealer.
+	keySymPubKey, err := keySym.publicKey()
+	if err != nil {
+		return NewError(err, "parse key sym")
+	}
+
+	secretShare, err := DecryptSecretShare(encSecretShare, keySymPubKey.SerializeCompressed())
 	if err != nil {
 		return NewError(err, "decrypt secret share")
 	}
